@@ -16,7 +16,10 @@ RULE = ("cases from the seed: base shape 1..4 cells per axis (<= 3 when three ax
         "sigma_H, all tiled; random (complex for Bloch) fields tiled with the per-copy phase; 1..4 steps. Oracle: "
         "forward^s(supercell) = tile(forward^s(base)) to 1e-9. K: forward^s of both containers vs model `fwd`; Bloch ghost "
         "phase of the placed boundaries vs exp(i k L). General non-uniform widths on a tiled axis are the known finding "
-        "'seam dual width' (backward metric uses w[-1] := w[0] instead of wrapping). non-trivial = every case (m > 1).")
+        "'seam dual width' (backward metric uses w[-1] := w[0] instead of wrapping). Every run also contains forced oracle-only "
+        "cases (no Lean tier) with a FULL 9-component symmetric positive definite inverse-permittivity tensor and with a full "
+        "inverse-permeability tensor (off-diagonals non-zero, tiled) on a tiled Bloch axis with k != 0, uniform grid; the Bloch "
+        "axis rotates over x/y/z with the seed. non-trivial = every case (m > 1).")
 
 TOL = 1e-9
 SIG = "C09-nonuniform-seam-dual-width"
@@ -118,8 +121,13 @@ def materialise(c):
             f = f + 1j * r.standard_normal((3, nx, ny, nz))
         return f
     E, H = field(), field()
-    inv_eps = r.uniform(0.2, 1.0, (c["eps_tier"], nx, ny, nz))
-    inv_mu = 1.0 if c["mu_tier"] == 0 else r.uniform(0.3, 1.0, (c["mu_tier"], nx, ny, nz))
+    def spd_tensor():
+        # symmetric positive definite 3x3 per cell, off-diagonals non-zero: A A^T + 0.5 I, row-major 9 components
+        A = r.uniform(-0.4, 0.4, (3, 3, nx, ny, nz))
+        T = np.einsum("ik...,jk...->ij...", A, A) + 0.5 * np.eye(3)[:, :, None, None, None]
+        return T.reshape(9, nx, ny, nz)
+    inv_eps = spd_tensor() if c["eps_tier"] == 9 else r.uniform(0.2, 1.0, (c["eps_tier"], nx, ny, nz))
+    inv_mu = 1.0 if c["mu_tier"] == 0 else (spd_tensor() if c["mu_tier"] == 9 else r.uniform(0.3, 1.0, (c["mu_tier"], nx, ny, nz)))
     sig_e = r.uniform(0.0, 0.02, (c["eps_tier"], nx, ny, nz)) if c["sig_e"] else None
     sig_h = r.uniform(0.0, 2e3, (max(c["mu_tier"], 1), nx, ny, nz)) if c["sig_h"] else None
     return E, H, inv_eps, inv_mu, sig_e, sig_h
@@ -161,7 +169,8 @@ def one_case(ctx, c, sample=False):
     base, sup = scenes(c)
     out = impl_pair(c, base, sup)
     cplx = c["bloch"]
-    for nm in ("base", "super"):
+    aniso = c["eps_tier"] == 9 or c["mu_tier"] == 9      # full tensors: no Lean tier, implementation oracle only
+    for nm in (() if aniso else ("base", "super")):
         o = out[nm]
         sc = o["scene"]
         line = Y.request(sc, "fwd", o["E0"], o["H0"], o["mats"][0], o["mats"][1], o["mats"][2], o["mats"][3], None, c["steps"], is_complex=cplx)
@@ -181,7 +190,8 @@ def one_case(ctx, c, sample=False):
              nontrivial=(tuple(c["shape"]), tuple(c["m"]), c["seed"]), n_tiled_axes=sum(1 for m in c["m"] if m > 1), bloch=cplx,
              grid="uniform" if c["widths"] is None else ("nonuniform-seam-symmetric" if c["seam_symmetric"] else "nonuniform-general"),
              steps=c["steps"], eps_tier=c["eps_tier"], mu_tier=c["mu_tier"], sig_e=c["sig_e"], sig_h=c["sig_h"],
-             size1_axis=1 in c["shape"], factor3=3 in c["m"], **{"face_" + k: True for k in kinds})
+             size1_axis=1 in c["shape"], factor3=3 in c["m"], full_tensor=("eps" if c["eps_tier"] == 9 else "mu" if c["mu_tier"] == 9 else "no"),
+             bloch_tiled_axes="".join("xyz"[ax] for ax in range(3) if c["m"][ax] > 1 and c["theta"][ax] != 0.0), **{"face_" + k: True for k in kinds})
     if d:
         ctx.violation(c, d, signature=SIG if known_class(c) else None)
     elif known_class(c):
@@ -201,9 +211,31 @@ FORCED = [
 ]
 
 
+def aniso_forced(seed, which, k):
+    """full 9-component tensor (eps or mu) on a tiled Bloch axis with k != 0; the Bloch axis rotates with the seed"""
+    ax = (seed + k) % 3
+    other = [(ax + 1) % 3, (ax + 2) % 3]
+    faces, theta, m, shape = {}, [0.0, 0.0, 0.0], [1, 1, 1], [3, 3, 3]
+    kinds = {ax: "bloch", other[0]: "periodic" if k % 2 == 0 else "bloch", other[1]: "none" if k % 2 == 0 else "periodic"}
+    for a in range(3):
+        faces[Y.FACES[2 * a]] = faces[Y.FACES[2 * a + 1]] = kinds[a]
+    theta[ax] = 1.9 if which == "eps" else -2.3
+    m[ax] = 2 + (seed + k) % 2
+    if kinds[other[0]] == "bloch":
+        theta[other[0]] = 0.8
+        m[other[0]] = 2
+        shape[other[0]] = 2
+    return dict(shape=shape, m=m, faces=faces, bloch=True, theta=theta, widths=None, seam_symmetric=True, steps=2,
+                eps_tier=9 if which == "eps" else 3, mu_tier=9 if which == "mu" else 1, sig_e=False, sig_h=False)
+
+
 def run(ctx):
-    n = ctx.scale(5, 50)
+    n = ctx.scale(7, 56)
     cases = [gen_case(ctx.rng, ctx.thorough, f) for f in FORCED]
+    cases += [gen_case(ctx.rng, ctx.thorough, aniso_forced(ctx.seed, "eps", 0)), gen_case(ctx.rng, ctx.thorough, aniso_forced(ctx.seed, "mu", 1))]
+    if ctx.thorough:
+        for k in range(2, 8):
+            cases.append(gen_case(ctx.rng, True, aniso_forced(ctx.seed, "eps" if k % 2 == 0 else "mu", k)))
     while len(cases) < n:
         cases.append(gen_case(ctx.rng, ctx.thorough))
     for i, c in enumerate(cases):
@@ -223,6 +255,13 @@ def search(ctx, hints):
                 ctx.violation(h, d)
                 return
     rng = ctx.rng.fork()
+    for k in range(6):
+        c = gen_case(rng, False, aniso_forced(ctx.seed, "eps" if k % 2 == 0 else "mu", k))
+        ctx.impl_property_evals += 1
+        d = property_fails(c)
+        if d:
+            ctx.violation(c, d)
+            return
     for i in range(ctx.scale(24, 120)):
         c = gen_case(rng, False)
         if known_class(c):
